@@ -83,6 +83,36 @@ func declKey(pkgPath string, fd *ast.FuncDecl) string {
 	return pkgPath + "." + recv + "." + fd.Name.Name
 }
 
+// movedKnown: fd is a function of the pinned tree that changed between method and plain function (or
+// moved to another receiver type): the inventory has the name in this package under another
+// receiver, and that other declaration is gone from the current tree. Such a function keeps its role
+// as an anchor of the rules and is not inlined.
+func movedKnown(pk *packages.Package, fd *ast.FuncDecl) bool {
+	loadInventory()
+	suffix := "." + fd.Name.Name
+	prefix := pk.PkgPath + "."
+	present := map[string]bool{}
+	for _, f := range pk.Syntax {
+		for _, d := range f.Decls {
+			if x, ok := d.(*ast.FuncDecl); ok {
+				present[declKey(pk.PkgPath, x)] = true
+			}
+		}
+	}
+	for k := range inventory {
+		if strings.HasPrefix(k, prefix) && strings.HasSuffix(k, suffix) && !strings.Contains(k, "$") {
+			rest := strings.TrimSuffix(strings.TrimPrefix(k, prefix), suffix)
+			if strings.Contains(rest, ".") || strings.Contains(rest, "/") {
+				continue // another package
+			}
+			if !present[k] {
+				return true
+			}
+		}
+	}
+	return false
+}
+
 // inventoryOf lists the keys of every first-party function declaration with a body.
 func inventoryOf(pkgs []*packages.Package) []string {
 	var out []string
@@ -94,6 +124,29 @@ func inventoryOf(pkgs []*packages.Package) []string {
 			for _, d := range f.Decls {
 				if fd, ok := d.(*ast.FuncDecl); ok {
 					out = append(out, declKey(pk.PkgPath, fd))
+					if fd.Body == nil {
+						continue
+					}
+					// local closures bound to a name: <function>$<name>
+					ast.Inspect(fd.Body, func(n ast.Node) bool {
+						switch x := n.(type) {
+						case *ast.AssignStmt:
+							if x.Tok == token.DEFINE && len(x.Lhs) == 1 && len(x.Rhs) == 1 {
+								if id, ok := x.Lhs[0].(*ast.Ident); ok {
+									if _, isLit := unparen(x.Rhs[0]).(*ast.FuncLit); isLit {
+										out = append(out, declKey(pk.PkgPath, fd)+"$"+id.Name)
+									}
+								}
+							}
+						case *ast.ValueSpec:
+							if len(x.Names) == 1 && len(x.Values) == 1 {
+								if _, isLit := unparen(x.Values[0]).(*ast.FuncLit); isLit {
+									out = append(out, declKey(pk.PkgPath, fd)+"$"+x.Names[0].Name)
+								}
+							}
+						}
+						return true
+					})
 				}
 			}
 		}
@@ -103,21 +156,37 @@ func inventoryOf(pkgs []*packages.Package) []string {
 }
 
 type helper struct {
-	key  string
-	obj  *types.Func
-	decl *ast.FuncDecl
-	file *ast.File
+	key   string
+	sig   *types.Signature
+	ftype *ast.FuncType
+	recv  *ast.FieldList
+	body  *ast.BlockStmt
+	file  *ast.File
+	decl  *ast.FuncDecl // nil for a local closure
+	lit   *ast.FuncLit  // the closure's literal
+	def   ast.Node      // the statement that defines the closure variable
+	name  string        // the closure variable
+	used  bool          // at least one call was inlined in this round
+}
+
+// self: the statement lies inside the helper's own body (a helper is never inlined into itself).
+func (h *helper) self(encl *ast.FuncDecl, st ast.Stmt) bool {
+	if h.lit != nil {
+		return h.lit.Pos() <= st.Pos() && st.End() <= h.lit.End()
+	}
+	return h.decl == encl
 }
 
 type textEdit struct {
 	start, end int
 	text       string
+	h          *helper // the helper inlined by this edit
 }
 
 type inliner struct {
 	pk      *packages.Package
 	fset    *token.FileSet
-	helpers map[*types.Func]*helper
+	helpers map[types.Object]*helper
 	n       int // fresh-name counter
 	log     []string
 	nsites  int
@@ -126,6 +195,8 @@ type inliner struct {
 	// through them, so neither a missing import nor a shadowed name at the call site matters
 	aliasDecl map[*ast.File][]string
 	aliasName map[string]string
+	last      *helper // helper of the most recent rewrite
+	tfile     map[*ast.File]*token.File
 }
 
 // inlineRound returns new contents for the files in which at least one call was inlined.
@@ -137,22 +208,23 @@ func inlineRound(pkgs []*packages.Package, overlay map[string][]byte, seq *int) 
 		if !strings.HasPrefix(pk.PkgPath, modPath) || pk.TypesInfo == nil {
 			continue
 		}
-		il := &inliner{pk: pk, fset: pk.Fset, helpers: map[*types.Func]*helper{}, n: *seq, aliasDecl: map[*ast.File][]string{}, aliasName: map[string]string{}}
+		il := &inliner{pk: pk, fset: pk.Fset, helpers: map[types.Object]*helper{}, n: *seq, aliasDecl: map[*ast.File][]string{}, aliasName: map[string]string{}}
 		for _, f := range pk.Syntax {
 			for _, d := range f.Decls {
 				fd, ok := d.(*ast.FuncDecl)
 				if !ok || fd.Body == nil {
 					continue
 				}
+				il.findClosures(pk.PkgPath, f, fd)
 				key := declKey(pk.PkgPath, fd)
-				if inventory[key] {
+				if inventory[key] || movedKnown(pk, fd) {
 					continue
 				}
 				obj, _ := pk.TypesInfo.Defs[fd.Name].(*types.Func)
 				if obj == nil {
 					continue
 				}
-				il.helpers[obj] = &helper{key: key, obj: obj, decl: fd, file: f}
+				il.helpers[obj] = &helper{key: key, sig: obj.Type().(*types.Signature), ftype: fd.Type, recv: fd.Recv, body: fd.Body, file: f, decl: fd}
 			}
 		}
 		if len(il.helpers) == 0 {
@@ -187,11 +259,52 @@ func inlineRound(pkgs []*packages.Package, overlay map[string][]byte, seq *int) 
 			}
 			// nothing inlined in the package: aliases are not needed either
 			sort.Slice(w.edits, func(i, j int) bool { return w.edits[i].start < w.edits[j].start })
-			var buf bytes.Buffer
+			// which edits apply in this round (an edit nested in an applied one waits for the next)
+			var applied []textEdit
 			last := 0
+			nApplied := map[*helper]int{}
 			for _, e := range w.edits {
 				if e.start < last {
-					continue // nested in an edit already applied: next round
+					continue
+				}
+				applied = append(applied, e)
+				last = e.end
+				if e.h != nil {
+					nApplied[e.h]++
+				}
+			}
+			// a closure all of whose uses were inlined is removed (its lines stay, blank); one with uses
+			// left keeps its definition and gets a blank use
+			tf := il.fset.File(w.f.Pos())
+			for h, n := range nApplied {
+				if h.lit == nil || h.def == nil || h.file != w.f || n == 0 {
+					continue
+				}
+				st, en := tf.Offset(h.def.Pos()), tf.Offset(h.def.End())
+				inside := false
+				for _, e := range applied {
+					if e.start <= st && en <= e.end {
+						inside = true
+					}
+				}
+				if inside {
+					continue
+				}
+				if n == il.usesOf(h) {
+					if _, isSpec := h.def.(*ast.ValueSpec); !isSpec {
+						blank := strings.Repeat("\n", strings.Count(string(w.src[st:en]), "\n"))
+						applied = append(applied, textEdit{start: st, end: en, text: blank})
+						continue
+					}
+				}
+				applied = append(applied, textEdit{start: en, end: en, text: "; _ = " + h.name})
+			}
+			sort.Slice(applied, func(i, j int) bool { return applied[i].start < applied[j].start })
+			var buf bytes.Buffer
+			last = 0
+			for _, e := range applied {
+				if e.start < last {
+					continue
 				}
 				buf.Write(w.src[last:e.start])
 				buf.WriteString(e.text)
@@ -254,7 +367,7 @@ func (il *inliner) helperCall(e ast.Expr) (*ast.CallExpr, *helper) {
 	default:
 		return nil, nil
 	}
-	obj, _ := il.pk.TypesInfo.Uses[id].(*types.Func)
+	obj := il.pk.TypesInfo.Uses[id]
 	if obj == nil {
 		return nil, nil
 	}
@@ -262,7 +375,113 @@ func (il *inliner) helperCall(e ast.Expr) (*ast.CallExpr, *helper) {
 	if h == nil {
 		return nil, nil
 	}
+	if h.lit != nil {
+		if _, isIdent := unparen(c.Fun).(*ast.Ident); !isIdent {
+			return nil, nil
+		}
+	}
 	return c, h
+}
+
+// usesOf counts the uses of a closure variable (blank assignments `_ = name` left by earlier rounds
+// do not count).
+func (il *inliner) usesOf(h *helper) int {
+	info := il.pk.TypesInfo
+	var obj types.Object
+	for o, hh := range il.helpers {
+		if hh == h {
+			obj = o
+		}
+	}
+	if obj == nil {
+		return -1
+	}
+	n := 0
+	ast.Inspect(h.file, func(nd ast.Node) bool {
+		if as, ok := nd.(*ast.AssignStmt); ok && as.Tok == token.ASSIGN && len(as.Lhs) == 1 && len(as.Rhs) == 1 {
+			if l, ok := as.Lhs[0].(*ast.Ident); ok && l.Name == "_" {
+				if r, ok := as.Rhs[0].(*ast.Ident); ok && info.Uses[r] == obj {
+					return false
+				}
+			}
+		}
+		if id, ok := nd.(*ast.Ident); ok && info.Uses[id] == obj {
+			n++
+		}
+		return true
+	})
+	return n
+}
+
+// findClosures registers the local closures of fd that are new: `name := func(…) … {…}` (or
+// `var name = func…`), never assigned again and never address-taken. Key: <function key>$<name>.
+func (il *inliner) findClosures(pkgPath string, f *ast.File, fd *ast.FuncDecl) {
+	info := il.pk.TypesInfo
+	cands := map[types.Object]*helper{}
+	reg := func(id *ast.Ident, rhs ast.Expr, def ast.Node) {
+		lit, ok := unparen(rhs).(*ast.FuncLit)
+		if !ok || id.Name == "_" {
+			return
+		}
+		obj := info.Defs[id]
+		if obj == nil {
+			return
+		}
+		key := declKey(pkgPath, fd) + "$" + id.Name
+		if inventory[key] {
+			return
+		}
+		sig, _ := info.TypeOf(lit).(*types.Signature)
+		if sig == nil {
+			return
+		}
+		cands[obj] = &helper{key: key, sig: sig, ftype: lit.Type, body: lit.Body, file: f, lit: lit, def: def, name: id.Name}
+	}
+	ast.Inspect(fd.Body, func(n ast.Node) bool {
+		switch x := n.(type) {
+		case *ast.AssignStmt:
+			if x.Tok == token.DEFINE && len(x.Lhs) == 1 && len(x.Rhs) == 1 {
+				if id, ok := x.Lhs[0].(*ast.Ident); ok {
+					reg(id, x.Rhs[0], x)
+				}
+			}
+		case *ast.ValueSpec:
+			if len(x.Names) == 1 && len(x.Values) == 1 {
+				reg(x.Names[0], x.Values[0], x)
+			}
+		}
+		return true
+	})
+	if len(cands) == 0 {
+		return
+	}
+	// disqualify: assigned again, address taken, incremented
+	ast.Inspect(fd.Body, func(n ast.Node) bool {
+		switch x := n.(type) {
+		case *ast.AssignStmt:
+			if x.Tok == token.DEFINE {
+				return true
+			}
+			for _, l := range x.Lhs {
+				if id, ok := unparen(l).(*ast.Ident); ok {
+					delete(cands, info.Uses[id])
+				}
+			}
+		case *ast.UnaryExpr:
+			if x.Op == token.AND {
+				if id, ok := unparen(x.X).(*ast.Ident); ok {
+					delete(cands, info.Uses[id])
+				}
+			}
+		}
+		return true
+	})
+	for o, h := range cands {
+		il.helpers[o] = h
+		if os.Getenv("SCALINT_INLINE_DEBUG") != "" {
+			fmt.Fprintf(os.Stderr, "inline: new closure %s\n", h.key)
+		}
+	}
 }
 
 func (il *inliner) fileEdits(f *ast.File, tf *token.File, src []byte) []textEdit {
@@ -359,7 +578,7 @@ func (il *inliner) fileEdits(f *ast.File, tf *token.File, src []byte) []textEdit
 				endLine := il.fset.PositionFor(last.End(), true).Line
 				fname := il.fset.PositionFor(st.Pos(), true).Filename
 				text += "\n" + fmt.Sprintf("//line %s:%d\n", fname, endLine+1)
-				edits = append(edits, textEdit{start: ls, end: nl + 1, text: text})
+				edits = append(edits, textEdit{start: ls, end: nl + 1, text: text, h: il.last})
 				il.nsites++
 			}
 			return true
@@ -389,7 +608,7 @@ func (il *inliner) rewriteStmt(f *ast.File, encl *ast.FuncDecl, st ast.Stmt, src
 			return "", false
 		}
 		c, h := il.helperCall(x.Results[0])
-		if h == nil || h.decl == encl {
+		if h == nil || h.self(encl, st) {
 			return "", false
 		}
 		// result types of caller and helper must be identical
@@ -402,26 +621,42 @@ func (il *inliner) rewriteStmt(f *ast.File, encl *ast.FuncDecl, st ast.Stmt, src
 				callerRes = sig.Results()
 			}
 		}
-		hres := h.obj.Type().(*types.Signature).Results()
+		hres := h.sig.Results()
 		if callerRes == nil || !types.Identical(callerRes, hres) {
+			if os.Getenv("SCALINT_INLINE_DEBUG") != "" {
+				fmt.Fprintf(os.Stderr, "inline: %s at line %d refused: result types differ (%v vs %v)\n", h.key, line, callerRes, hres)
+			}
 			return "", false
 		}
 		pre, binds, ok := il.bind(f, c, h)
 		if !ok {
+			if os.Getenv("SCALINT_INLINE_DEBUG") != "" {
+				fmt.Fprintf(os.Stderr, "inline: %s at line %d refused: bind\n", h.key, line)
+			}
 			return "", false
 		}
 		body, ok := il.body(f, c, h, func(r *ast.ReturnStmt) []ast.Stmt { return []ast.Stmt{r} })
 		if !ok {
+			if os.Getenv("SCALINT_INLINE_DEBUG") != "" {
+				fmt.Fprintf(os.Stderr, "inline: %s at line %d refused: body\n", h.key, line)
+			}
 			return "", false
 		}
 		il.note(h, "return", fname, line)
-		return pin("{\n" + pre + "{\n" + binds + body + "\n}\n}"), true
+		// the block ends in a return on every path, but the compiler's terminating-statement rule does
+		// not see that through a labelled or looping body: when this is the function's last
+		// statement, a panic that is never reached keeps the function well-formed
+		tailGuard := ""
+		if isTail(encl, enclosingFuncLit(encl, st), st) {
+			tailGuard = "\npanic(\"unreachable\")"
+		}
+		return pin("{\n" + pre + "{\n" + binds + body + "\n}\n}" + tailGuard), true
 	case *ast.ExprStmt:
 		c, h := il.helperCall(x.X)
-		if h == nil || h.decl == encl {
+		if h == nil || h.self(encl, st) {
 			return "", false
 		}
-		if h.obj.Type().(*types.Signature).Results().Len() != 0 {
+		if h.sig.Results().Len() != 0 {
 			return "", false
 		}
 		pre, binds, ok := il.bind(f, c, h)
@@ -443,7 +678,7 @@ func (il *inliner) rewriteStmt(f *ast.File, encl *ast.FuncDecl, st ast.Stmt, src
 			return "", false
 		}
 		c, h := il.helperCall(x.Rhs[0])
-		if h == nil || h.decl == encl {
+		if h == nil || h.self(encl, st) {
 			return "", false
 		}
 		return il.assignForm(f, c, h, x.Lhs, x.Tok == token.DEFINE, pin, fname, line)
@@ -457,7 +692,7 @@ func (il *inliner) rewriteStmt(f *ast.File, encl *ast.FuncDecl, st ast.Stmt, src
 			return "", false
 		}
 		c, h := il.helperCall(vs.Values[0])
-		if h == nil || h.decl == encl {
+		if h == nil || h.self(encl, st) {
 			return "", false
 		}
 		var lhs []ast.Expr
@@ -476,10 +711,10 @@ func (il *inliner) rewriteStmt(f *ast.File, encl *ast.FuncDecl, st ast.Stmt, src
 			cond = unparen(u.X)
 		}
 		c, h := il.helperCall(cond)
-		if h == nil || h.decl == encl {
+		if h == nil || h.self(encl, st) {
 			return "", false
 		}
-		res := h.obj.Type().(*types.Signature).Results()
+		res := h.sig.Results()
 		if res.Len() != 1 || !types.Identical(res.At(0).Type(), types.Typ[types.Bool]) {
 			return "", false
 		}
@@ -544,10 +779,10 @@ func (il *inliner) rewriteStmt(f *ast.File, encl *ast.FuncDecl, st ast.Stmt, src
 		return b.String(), true
 	case *ast.RangeStmt:
 		c, h := il.helperCall(x.X)
-		if h == nil || h.decl == encl {
+		if h == nil || h.self(encl, st) {
 			return "", false
 		}
-		res := h.obj.Type().(*types.Signature).Results()
+		res := h.sig.Results()
 		if res.Len() != 1 {
 			return "", false
 		}
@@ -577,13 +812,24 @@ func enclosingFuncLit(fd *ast.FuncDecl, st ast.Stmt) *ast.FuncLit {
 	return best
 }
 
+// tail: st is the last statement of the enclosing function's body.
+func isTail(fd *ast.FuncDecl, lit *ast.FuncLit, st ast.Stmt) bool {
+	body := fd.Body
+	if lit != nil {
+		body = lit.Body
+	}
+	return len(body.List) > 0 && body.List[len(body.List)-1] == st
+}
+
 func (il *inliner) note(h *helper, shape, fname string, line int) {
+	h.used = true
+	il.last = h
 	il.log = append(il.log, fmt.Sprintf("%s inlined (%s) at %s:%d", h.key, shape, rel(fname), line))
 }
 
 // assignForm: lhs... (:= or =) h(args).
 func (il *inliner) assignForm(f *ast.File, c *ast.CallExpr, h *helper, lhs []ast.Expr, define bool, pin func(string) string, fname string, line int) (string, bool) {
-	res := h.obj.Type().(*types.Signature).Results()
+	res := h.sig.Results()
 	if res.Len() != len(lhs) || res.Len() == 0 {
 		return "", false
 	}
@@ -623,7 +869,7 @@ func (il *inliner) assignForm(f *ast.File, c *ast.CallExpr, h *helper, lhs []ast
 func (il *inliner) bodyGlobals(h *helper) map[string]bool {
 	info := il.pk.TypesInfo
 	out := map[string]bool{}
-	ast.Inspect(h.decl.Body, func(n ast.Node) bool {
+	ast.Inspect(h.body, func(n ast.Node) bool {
 		id, ok := n.(*ast.Ident)
 		if !ok {
 			return true
@@ -634,6 +880,8 @@ func (il *inliner) bodyGlobals(h *helper) map[string]bool {
 		}
 		if _, isPkg := obj.(*types.PkgName); isPkg || obj.Parent() == il.pk.Types.Scope() || obj.Parent() == types.Universe {
 			out[id.Name] = true
+		} else if v, isVar := obj.(*types.Var); isVar && h.lit != nil && !v.IsField() && obj.Pkg() == il.pk.Types && obj.Parent() != nil && !(h.lit.Pos() <= obj.Pos() && obj.Pos() < h.lit.End()) {
+			out[id.Name] = true // captured by the closure
 		}
 		return true
 	})
@@ -645,9 +893,9 @@ func (il *inliner) bodyGlobals(h *helper) map[string]bool {
 // statement that copies the temporaries into the targets.
 func (il *inliner) targets(h *helper, lhs []ast.Expr, define bool) (decls string, temps []ast.Expr, copyTxt string, ok bool) {
 	info := il.pk.TypesInfo
-	res := h.obj.Type().(*types.Signature).Results()
+	res := h.sig.Results()
 	var db strings.Builder
-	resExprs := fieldTypeExprs(h.decl.Type.Results)
+	resExprs := fieldTypeExprs(h.ftype.Results)
 	if len(resExprs) != len(lhs) || res.Len() != len(lhs) {
 		return "", nil, "", false
 	}
@@ -670,7 +918,7 @@ func (il *inliner) targets(h *helper, lhs []ast.Expr, define bool) (decls string
 			if il.bodyGlobals(h)[id.Name] {
 				return "", nil, "", false
 			}
-			fmt.Fprintf(&db, "var %s %s\n", id.Name, ts)
+			fmt.Fprintf(&db, "var %s %s\n_ = %s\n", id.Name, ts, id.Name)
 			ls = append(ls, id.Name)
 		default:
 			// an existing variable (or another addressable operand with no side effects): same type only
@@ -702,7 +950,7 @@ func (il *inliner) rewriteAssignIf(f *ast.File, encl *ast.FuncDecl, as *ast.Assi
 		return "", false
 	}
 	c, h := il.helperCall(as.Rhs[0])
-	if h == nil || h.decl == encl {
+	if h == nil || h.self(encl, as) {
 		return "", false
 	}
 	// the tested variable
@@ -942,7 +1190,7 @@ func fieldTypeExprs(fl *ast.FieldList) []ast.Expr {
 // helper's parameter names bound to them (inside the block that holds the body).
 func (il *inliner) bind(f *ast.File, c *ast.CallExpr, h *helper) (pre, binds string, ok bool) {
 	info := il.pk.TypesInfo
-	sig := h.obj.Type().(*types.Signature)
+	sig := h.sig
 	if sig.Variadic() || sig.TypeParams() != nil || sig.RecvTypeParams() != nil {
 		return "", "", false
 	}
@@ -950,13 +1198,13 @@ func (il *inliner) bind(f *ast.File, c *ast.CallExpr, h *helper) (pre, binds str
 		return "", "", false // f(g()) with a multi-value g
 	}
 	var pb, bb strings.Builder
-	paramExprs := fieldTypeExprs(h.decl.Type.Params)
+	paramExprs := fieldTypeExprs(h.ftype.Params)
 	emit := func(i int, name string, pt types.Type, arg ast.Expr, argText string) bool {
 		il.n++
 		tmp := fmt.Sprintf("ſ%da", il.n)
 		tv, known := info.Types[arg]
 		direct := false
-		if known && tv.Type != nil && types.Identical(tv.Type, pt) {
+		if known && tv.Type != nil && tv.Value == nil && types.Identical(tv.Type, pt) {
 			if b, isBasic := tv.Type.(*types.Basic); !isBasic || b.Info()&types.IsUntyped == 0 {
 				direct = true
 			}
@@ -1020,8 +1268,8 @@ func (il *inliner) bind(f *ast.File, c *ast.CallExpr, h *helper) (pre, binds str
 			xText = "*(" + xText + ")"
 		}
 		name := ""
-		if h.decl.Recv != nil && len(h.decl.Recv.List) == 1 && len(h.decl.Recv.List[0].Names) == 1 {
-			name = h.decl.Recv.List[0].Names[0].Name
+		if h.recv != nil && len(h.recv.List) == 1 && len(h.recv.List[0].Names) == 1 {
+			name = h.recv.List[0].Names[0].Name
 		}
 		// the receiver temp is typed explicitly unless the operand already has exactly that type
 		il.n++
@@ -1029,7 +1277,7 @@ func (il *inliner) bind(f *ast.File, c *ast.CallExpr, h *helper) (pre, binds str
 		if (wantPtr == havePtr) && types.Identical(xt, rt) {
 			fmt.Fprintf(&pb, "%s := %s\n_ = %s\n", tmp, xText, tmp)
 		} else {
-			ts, ok := il.typeAlias(h, "recv", h.decl.Recv.List[0].Type)
+			ts, ok := il.typeAlias(h, "recv", h.recv.List[0].Type)
 			if !ok {
 				return "", "", false
 			}
@@ -1043,7 +1291,7 @@ func (il *inliner) bind(f *ast.File, c *ast.CallExpr, h *helper) (pre, binds str
 	}
 	// parameters, in declaration order
 	var names []string
-	for _, fl := range h.decl.Type.Params.List {
+	for _, fl := range h.ftype.Params.List {
 		if len(fl.Names) == 0 {
 			names = append(names, "_")
 		}
@@ -1066,16 +1314,33 @@ func (il *inliner) bind(f *ast.File, c *ast.CallExpr, h *helper) (pre, binds str
 // Gives up on helpers whose inlining could change behaviour or scoping.
 func (il *inliner) body(f *ast.File, c *ast.CallExpr, h *helper, onReturn func(*ast.ReturnStmt) []ast.Stmt) (string, bool) {
 	info := il.pk.TypesInfo
-	sig := h.obj.Type().(*types.Signature)
-	// no named results
-	for i := 0; i < sig.Results().Len(); i++ {
-		if sig.Results().At(i).Name() != "" {
+	sig := h.sig
+	// named results become locals of the inlined body (no defer can observe them: helpers with defer
+	// are refused below); a bare return returns them
+	namedDecls := ""
+	var namedIdents []ast.Expr
+	if sig.Results().Len() > 0 && sig.Results().At(0).Name() != "" {
+		resExprs := fieldTypeExprs(h.ftype.Results)
+		if len(resExprs) != sig.Results().Len() {
 			return "", false
+		}
+		for i := 0; i < sig.Results().Len(); i++ {
+			name := sig.Results().At(i).Name()
+			if name == "_" || name == "" {
+				il.n++
+				name = fmt.Sprintf("ſ%dn", il.n)
+			}
+			ts, ok := il.typeAlias(h, fmt.Sprintf("r%d", i), resExprs[i])
+			if !ok {
+				return "", false
+			}
+			namedDecls += fmt.Sprintf("var %s %s\n_ = %s\n", name, ts, name)
+			namedIdents = append(namedIdents, ast.NewIdent(name))
 		}
 	}
 	bad := false
 	recursive := false
-	ast.Inspect(h.decl.Body, func(n ast.Node) bool {
+	ast.Inspect(h.body, func(n ast.Node) bool {
 		switch x := n.(type) {
 		case *ast.DeferStmt:
 			bad = true
@@ -1100,7 +1365,12 @@ func (il *inliner) body(f *ast.File, c *ast.CallExpr, h *helper, onReturn func(*
 			// names that mean something else at the call site
 			pkgLevel := obj.Parent() == il.pk.Types.Scope() || obj.Parent() == types.Universe
 			_, isPkgName := obj.(*types.PkgName)
-			if !pkgLevel && !isPkgName {
+			// a closure's captured variables must be the same variables at the call site
+			captured := false
+			if v, isVar := obj.(*types.Var); isVar && h.lit != nil && !v.IsField() && obj.Pkg() == il.pk.Types && obj.Parent() != nil && !pkgLevel {
+				captured = !(h.lit.Pos() <= obj.Pos() && obj.Pos() < h.lit.End())
+			}
+			if !pkgLevel && !isPkgName && !captured {
 				return true
 			}
 			sc := il.pk.Types.Scope().Innermost(c.Pos())
@@ -1134,6 +1404,9 @@ func (il *inliner) body(f *ast.File, c *ast.CallExpr, h *helper, onReturn func(*
 	rewriteStmt = func(s ast.Stmt) ast.Stmt {
 		switch x := s.(type) {
 		case *ast.ReturnStmt:
+			if len(x.Results) == 0 && len(namedIdents) > 0 {
+				x = &ast.ReturnStmt{Results: namedIdents}
+			}
 			rep := onReturn(x)
 			if rep == nil {
 				failed = true
@@ -1174,7 +1447,7 @@ func (il *inliner) body(f *ast.File, c *ast.CallExpr, h *helper, onReturn func(*
 		}
 		return out
 	}
-	cp := copyBlock(h.decl.Body)
+	cp := copyBlock(h.body)
 	cp.List = rewriteList(cp.List)
 	if failed {
 		return "", false
@@ -1183,7 +1456,7 @@ func (il *inliner) body(f *ast.File, c *ast.CallExpr, h *helper, onReturn func(*
 	if err := printer.Fprint(&buf, token.NewFileSet(), cp); err != nil {
 		return "", false
 	}
-	return buf.String(), true
+	return namedDecls + buf.String(), true
 }
 
 // copyBlock deep-copies the statement structure of a block (expressions are shared: they are only printed).
